@@ -2,7 +2,7 @@
    specification - complete refinements, no hypotheses beyond well-formed registers. *)
 From Coq Require Import ZArith Bool List Lia.
 From AxV Require Import Bits Outcome Codes Iced State Rt Mem Trace BitsP RegFile RegsP ISA CodeSem FlagsP CfP MovP AluP Alu32P MovxP.
-From AxG Require Import Flags Regs Operand Helpers I_cdqe I_cqo I_cdq I_cld I_nop I_endbr64.
+From AxG Require Import Flags Regs Operand Helpers I_cdqe I_cqo I_cdq I_cld I_nop I_endbr64 I_cwd.
 Local Open Scope Z_scope.
 Ltac Zify.zify_post_hook ::= Z.div_mod_to_equations.
 
@@ -72,5 +72,31 @@ Section Simple.
     destruct (Z.testbit (rf_read (regs s) EAX) 31); cbn [negb].
     - rewrite (bind_ok _ _ _ _ _ (reg_write_32_ok c EDX 4294967295 s eq_refl R1)). reflexivity.
     - rewrite (bind_ok _ _ _ _ _ (reg_write_32_ok c EDX 0 s eq_refl R0)). reflexivity.
+  Qed.
+
+  Lemma land_pow2_eqb x k : 0 <= k -> (Z.land x (2 ^ k) =? 2 ^ k) = Z.testbit x k.
+  Proof.
+    intros Hk. assert (P : 0 < 2 ^ k) by (apply Z.pow_pos_nonneg; lia).
+    assert (E : Z.land x (2 ^ k) = if Z.testbit x k then 2 ^ k else 0).
+    { apply Z.bits_inj'. intros j Hj. rewrite Z.land_spec. destruct (Z.eq_dec j k) as [->|N].
+      - rewrite Z.pow2_bits_true by lia. rewrite andb_true_r. destruct (Z.testbit x k) eqn:T; [rewrite Z.pow2_bits_true by lia; reflexivity|rewrite Z.testbit_0_l; reflexivity].
+      - rewrite Z.pow2_bits_false by lia. rewrite andb_false_r. destruct (Z.testbit x k); [rewrite Z.pow2_bits_false by lia; reflexivity|rewrite Z.testbit_0_l; reflexivity]. }
+    rewrite E. destruct (Z.testbit x k); [apply Z.eqb_refl|apply Z.eqb_neq; lia].
+  Qed.
+
+  (* CWD: DX <- the sign of AX replicated (only the low 16 bits of RDX change) *)
+  Theorem cwd_refines : i_code i = C_Cwd ->
+    exists s', isa_exec (SCwd 16) i s = IDone s' 0 /\ instr_cwd c i s = (Ok tt, s').
+  Proof.
+    intros Ec. unfold instr_cwd. rewrite Ec. rewrite (bind_ok _ _ _ _ _ (dbg_code_ok c s _ eq_refl)).
+    rewrite (bind_ok _ _ _ _ _ (reg_read_16_ok c AX s Hwf eq_refl)). cbv zeta.
+    cbn [isa_exec]. change (acc 16) with AX. change (hi_reg 16) with DX. unfold msb. change (16 - 1) with 15.
+    change 32768 with (2 ^ 15). rewrite land_pow2_eqb by lia.
+    eexists. split; [reflexivity|].
+    assert (R1 : 0 <= 65535 < 2 ^ 16) by (change (2 ^ 16) with 65536; lia).
+    assert (R0 : 0 <= 0 < 2 ^ 16) by (change (2 ^ 16) with 65536; lia).
+    destruct (Z.testbit (rf_read (regs s) AX) 15).
+    - rewrite (bind_ok _ _ _ _ _ (reg_write_16_ok c DX 65535 s Hwf eq_refl R1)). reflexivity.
+    - rewrite (bind_ok _ _ _ _ _ (reg_write_16_ok c DX 0 s Hwf eq_refl R0)). reflexivity.
   Qed.
 End Simple.
